@@ -605,4 +605,15 @@ def C18(ctx):
     ctx.cov["distinct_nontrivial"] += nontriv
 
 
-CHECKS = {"C18": C18, "C12": C12, "C19": C19, "C15": C15, "C13": C13, "C14": C14, "C10": C10, "C11": C11, "C01": C01, "C04": C04, "C05": C05, "C07": C07, "C08": C08, "C09": C09, "C02": C02, "C03": C03}
+def C17(ctx):
+    ctx.assumptions += ["thread-local: lazily initialised once per thread, private (returns the thread's own access count), "
+                        "dropped with the thread: init and drop counters (kept in std atomics by the harness) are part of every outcome",
+                        "lazy static: one published instance per execution (racing initialisers may construct and discard a second one, "
+                        "as documented in src/lazy_static.rs), released to every get, all constructed instances dropped by the end of "
+                        "the iteration, re-initialised in the next one (every iteration validated from LoomSem's Init)"]
+    ctx.notes.append("C17 states safety properties of statics; which interleavings of racing initialisers are explored is not "
+                     "claimed (lazy_static access is no scheduling point), so only soundness, failure kinds and traces are checked")
+    sync_family(ctx, families.statics(ctx.tier, ctx.seed), want=("sound", "fails", "trace"), waive=False)
+
+
+CHECKS = {"C17": C17, "C18": C18, "C12": C12, "C19": C19, "C15": C15, "C13": C13, "C14": C14, "C10": C10, "C11": C11, "C01": C01, "C04": C04, "C05": C05, "C07": C07, "C08": C08, "C09": C09, "C02": C02, "C03": C03}
